@@ -61,7 +61,8 @@ class Sc:
         os.makedirs(self.dir)
         make_template(self.tmpl, enc)
         self.fields = fields            # two-phase model: list of (old rel name, new rel name)
-        self.op = ops[0]
+        self.op = ops[-1]            # the operation under judgement; earlier ones only prepare (e.g. a pending out-of-place write)
+        self.prev_ops = ops[:-1]
 
     def desc(self):
         return {"base_encoding": self.enc, "operations": self.ops,
@@ -145,7 +146,13 @@ def main():
             ("none", ["typ:a:0x24:2"], None),
             ("gzip", ["put:a:20:2:500"], None),
             ("gzip", ["enc:none:0"], [("a.gz", "a"), ("b.gz", "b")]),
-            ("none", ["end:big:-1"], [("a", "a"), ("b", "b")])]
+            ("none", ["end:big:-1"], [("a", "a"), ("b", "b")]),
+            # every data-touching operation started WITH a pending out-of-place (gzip) write on the field
+            ("gzip", ["put:a:20:2:500", "del:a"], None),
+            ("gzip", ["put:a:20:2:500", "ren:a:q"], None),
+            ("gzip", ["put:a:20:2:500", "enc:none:0"], None),
+            ("gzip", ["put:a:20:2:500", "typ:a:0x24:2"], None),
+            ("gzip", ["put:a:20:2:500", "mov:a:1"], None)]
     if chk.thorough:
         plan += [("none", ["enc:bzip2:0"], [("a", "a.bz2"), ("b", "b.bz2")]),
                  ("none", ["off:1:0"], [("a", "a"), ("b", "b")]), ("gzip", ["put:b:5:3:9"], None), ("none", ["ren:b:bb"], None)]
@@ -185,6 +192,13 @@ def main():
         sc.rc = rc; sc.out = out; sc.h = parse_run(out)
         sc.calls = shimlib.read_log(os.path.join(sc.dir, "base.log"))
         sc.old_view = view(sc.tmpl); sc.new_view = view(w)
+        sc.base_view = sc.old_view
+        if sc.prev_ops:
+            # what the preparing operations alone leave behind once the handle is closed
+            wp = sc.work("prev")
+            vlib.sh([exe, "run", os.path.join(wp, "df")] + sc.prev_ops, timeout=60)
+            sc.base_view = view(wp)
+        sc.allowed = {sc.old_view, sc.base_view, sc.new_view}
         sc.old_tree = shimlib.tree(os.path.join(sc.tmpl, "df")); sc.new_tree = shimlib.tree(os.path.join(w, "df"))
         sc.outside = outside_state(sc.tmpl)
         sc.outside_after = outside_state(w)
@@ -340,7 +354,7 @@ def main():
     def judge_state(sc, what, k, root, in_window):
         v = view(root)
         tr = shimlib.tree(os.path.join(root, "df"))
-        okv = v in (sc.old_view, sc.new_view)
+        okv = v in sc.allowed
         lost = file_level(sc, tr)
         nontriv.add((sc.sid, what, v == sc.old_view, v == sc.new_view, tuple(sorted(r for r in tr if is_data_tmp(r)) and ["tmp"])))
         if outside_state(root) != sc.outside:
@@ -425,7 +439,12 @@ def main():
             spec_fail(sc, coarse(opn, call.name, "crash", sc, call), "%s with %s at call %d (%s %s): the process died or hung (rc %d): %s" % (
                 sc.ops, en, k, call.name, call.p1, rc, raw[-200:]), extra)
             continue
-        o = h["ops"][0]
+        o = h["ops"][-1]
+        if len(h["ops"]) != len(sc.ops) or any(x["ret"] != 0 for x in h["ops"][:-1]):
+            # the failing call hit a preparing operation: that operation is judged in its own scenario
+            if outside != sc.outside:
+                spec_fail(sc, "%s/outside-changed" % opn, "%s with %s at call %d: a file outside the dirfile changed" % (sc.ops, en, k), extra)
+            continue
         nontriv.add((sc.sid, "fault", call.name, is_data_tmp(call.p1), o["ret"], o["invalid"], v == sc.old_view, v == sc.new_view, bool(debris)))
         kind = "ok" if o["ret"] == 0 else ("unclean" if o["ret"] == GD_E_UNCLEAN_DB else "error")
         counts["outcomes"][kind] = counts["outcomes"].get(kind, 0) + 1
@@ -444,10 +463,13 @@ def main():
         if kind == "error":
             if o["invalid"]:
                 spec_fail(sc, coarse(opn, call.name, "handle-invalid"), "%s: ordinary error %d but the handle was invalidated" % (sc.ops, o["ret"]), extra)
-            if debris:
+            if debris and not (call.name.startswith("unlink") and is_data_tmp(call.p1)):
+                # (when the failing call IS the removal of the temporary file nothing can remove it)
                 spec_fail(sc, coarse(opn, call.name, "debris", sc), "%s with %s at call %d (%s %s): returned error %d and left %s" % (
                     sc.ops, en, k, call.name, call.p1, o["ret"], debris), extra)
-            if v != sc.old_view:
+            # (when the failing call is the finalising of a pending out-of-place write, the appended data are
+            #  abandoned with the error: the view is then the one before the preparing operations)
+            if v not in (sc.base_view, sc.old_view):
                 spec_fail(sc, coarse(opn, call.name, "old-data-not-intact"), "%s with %s at call %d (%s %s): returned error %d but a fresh open no longer sees the old data" % (
                     sc.ops, en, k, call.name, call.p1, o["ret"]), dict(extra, seen=v[:1200]))
             if any((" err " in l and not re.search(r" err 0( |$)", l)) for l in h["H"] if " field " in l):
@@ -459,7 +481,7 @@ def main():
         if v not in (sc.new_view,):
             if h["close"] != 0 and sc.w0 is not None and k > sc.w0:
                 known_hit(sc, k_window(sc.op), "%s succeeded, the following gd_close failed (%s at %s): data files are new, metadata old" % (sc.ops, en, call.name), extra)
-            elif v == sc.old_view and h["close"] != 0:
+            elif v in (sc.old_view, sc.base_view) and h["close"] != 0:
                 pass
             else:
                 spec_fail(sc, coarse(opn, call.name, "success-but-not-new"), "%s with %s at call %d (%s %s): op ret 0, close %s, but a fresh open does not see the new data" % (
@@ -506,7 +528,9 @@ def main():
         if rc != 0 or not h["ops"]:
             spec_fail(sc, "%s/double-fault/crash" % opn, "%s with failing calls %s: the process died or hung (rc %d): %s" % (sc.ops, [repr(c) for c in failed], rc, raw[-200:]), extra)
             continue
-        o = h["ops"][0]
+        o = h["ops"][-1]
+        if len(h["ops"]) != len(sc.ops) or any(x["ret"] != 0 for x in h["ops"][:-1]):
+            continue
         nontriv.add((sc.sid, "double", tuple(c.name for c in failed), o["ret"], o["invalid"], v == sc.old_view, v == sc.new_view))
         if outside != sc.outside:
             spec_fail(sc, "%s/outside-changed" % opn, "%s with failing calls %s: a file outside the dirfile changed" % (sc.ops, [repr(c) for c in failed]), extra)
@@ -518,7 +542,7 @@ def main():
                 spec_fail(sc, "%s/double-fault/unclean-outside-commit" % opn, "%s: GD_E_UNCLEAN_DB although no rename/unlink of a data file failed (%s)" % (sc.ops, [repr(c) for c in failed]), extra)
         elif o["ret"] != 0:
             unl = any(c.name.startswith("unlink") for c in failed)
-            if v != sc.old_view:
+            if v not in (sc.base_view, sc.old_view):
                 spec_fail(sc, "%s/double-fault/old-data-not-intact" % opn, "%s with failing calls %s: ordinary error %d but a fresh open no longer sees the old data" % (sc.ops, [repr(c) for c in failed], o["ret"]), dict(extra, seen=v[:800]))
             if sorted(r for r in tr if is_data_tmp(r)) and not unl:
                 spec_fail(sc, K_DCLOSE if any(c.name == "close" and is_data_tmp(c.p1) for c in failed) else "%s/double-fault/debris" % opn, "%s with failing calls %s: error %d and temporary files left although no unlink failed" % (sc.ops, [repr(c) for c in failed], o["ret"]), extra)
